@@ -1255,7 +1255,8 @@ func (p *Parser) parseFormatStringOperator() (token.Token, string, string, error
 	}
 	textToken := p.curToken
 	var fontID string
-	var fontIdToken token.Token
+	// Until an explicit font id is parsed, font errors are reported at the text.
+	fontIdToken := textToken
 	if p.fonts == nil {
 		fc, err := LoadFontConfig(p.fontConfigFilepath)
 		if err != nil && p.enableEnvironmentErrors {
